@@ -314,6 +314,14 @@ RULES = [
     ('malformed-loop', 'repeat with i in "Top" and "Candle" begin hue 5 end'),
     ('number-too-long', 'hue ' + '1' * 4301),
     ('number-too-long', 'print {3 + ' + '9' * 5000 + '}'),
+    # a name that exists only inside a routine (parameter, local, the routine's loop variables) is
+    # undefined outside it
+    ('undefined-name', 'define show with level print level show 10 assign next {level + 1}'),
+    ('undefined-name', 'define show with level rate begin print level end show 1 2 hue rate'),
+    ('undefined-name', 'define f begin assign loc 1 print loc end f print loc'),
+    ('undefined-name', 'define f begin repeat with idx from 1 to 2 print idx end f print idx'),
+    ('undefined-name', 'define f begin repeat all as lamp print lamp end f set lamp'),
+    ('undefined-name', 'define f with p begin print p end define g begin print p end f 1 g'),
     ('undefined-name', 'assign y y'),
     ('undefined-name', 'repeat with i from 1 to i begin print i end'),
     ('undefined-name', 'repeat 3 with i from i to 5 begin print i end'),
